@@ -1,0 +1,26 @@
+//go:build verif && vectors
+
+package zap
+
+import "time"
+
+// VerifVectorCacheTick runs one expiry pass of the segment's vector index
+// cache synchronously and reports whether the cache is empty afterwards.
+func VerifVectorCacheTick(sb *SegmentBase) bool { return sb.vecIndexCache.cleanup() }
+
+// VerifSetMonitorFreq changes the period of the cache monitor and returns the
+// previous value.
+func VerifSetMonitorFreq(d time.Duration) time.Duration {
+	old := monitorFreq
+	monitorFreq = d
+	return old
+}
+
+// VerifVectorCacheLen returns the number of cached vector indexes.
+func VerifVectorCacheLen(sb *SegmentBase) int {
+	sb.vecIndexCache.m.RLock()
+	defer sb.vecIndexCache.m.RUnlock()
+	return len(sb.vecIndexCache.cache)
+}
+
+func VerifGetVectorCode(docNum uint32, score float32) uint64 { return getVectorCode(docNum, score) }
